@@ -12,8 +12,9 @@ share ISO year and ISO week number (`Cal.isoCalendar_same_week`). Helper lemmas:
 `next month` used to fail from a day that does not exist in the next month; it was fixed in /repo (d8aa8bf73) and the
 model mirrors the fixed code (`month_period_fixed`, full statement); the pre-fix variant, its guard and the witness
 2020-01-31 are kept as a labelled regression. Round 2 adds hours/minutes/seconds, the early/mid/late prefixes, weekend,
-year/month to date and `rest of …`; two of those statements fail on the faithful model (weekend TIMEX year at a year
-boundary, past value of `month to date`) and carry partial theorems + witnesses.
+year/month to date and `rest of …`. Two of those statements failed on the pre-fix code (weekend TIMEX year at a year
+boundary, past value of `month to date`); both were fixed in /repo (10db50e3c, f19a69b3f), the model mirrors the fixed
+code (`weekend_timex_fixed`, `month_to_date`: full statements) and the pre-fix variants are kept as labelled regressions.
 -/
 namespace RTV.DateUtils
 open RTV.Cal RTV.Py
@@ -317,45 +318,57 @@ example : weekPeriodP ⟨⟨2020, 1, 29⟩, 52200⟩ 0 false false true =
 
 /-! ## this / next / last weekend -/
 
-/-- The weekend is `[Saturday, Monday)` of the shifted week. -/
+/-- The weekend is `[Saturday, Monday)` of the shifted week and its TIMEX is `YYYY-Www-WE` with the ISO year and ISO
+week of that Saturday, for every reference and shift — the code after `fix: the weekend TIMEX takes its year from the
+ISO year of the Saturday` (10db50e3c). -/
+theorem weekend_timex_fixed (R : DateTime) (hv : R.date.valid = true) (k : Int) (t : Str) (b e : DateTime)
+    (h : weekendPeriod R k = some (t, b, e)) :
+    b.date.valid = true ∧ e.date.valid = true ∧ b.secs = R.secs ∧ e.secs = R.secs ∧
+    (b.date.ord : Int) = mondayOrd R.date.ord + 5 + 7 * k ∧ e.date.ord = b.date.ord + 2 ∧
+    t = pad 4 (isoCalendar b.date).1 ++ [45, 87] ++ pad 2 (isoCalendar b.date).2.1 ++ [45, 87, 69] := by
+  unfold weekendPeriod at h
+  cases hw : weekendPeriodPreFix R k with
+  | none => simp [hw] at h
+  | some r =>
+    simp only [hw, Option.map_some, Option.some.injEq, Prod.mk.injEq] at h
+    obtain ⟨t', b', e'⟩ := r
+    have s := weekendPeriodPreFix_spec R hv k t' b' e' hw
+    simp only at h
+    obtain ⟨ht, hb, he⟩ := h
+    subst hb he
+    exact ⟨s.1, s.2.1, s.2.2.1, s.2.2.2.1, s.2.2.2.2.1, s.2.2.2.2.2.1, ht.symm⟩
+
+/-- The weekend is `[Saturday, Monday)` of the shifted week (corollary kept under its round-2 name). -/
 theorem weekend_is_saturday_to_monday (R : DateTime) (hv : R.date.valid = true) (k : Int) (t : Str) (b e : DateTime)
     (h : weekendPeriod R k = some (t, b, e)) :
     b.date.valid = true ∧ e.date.valid = true ∧ b.secs = R.secs ∧ e.secs = R.secs ∧
     (b.date.ord : Int) = mondayOrd R.date.ord + 5 + 7 * k ∧ e.date.ord = b.date.ord + 2 := by
-  have s := weekendPeriod_spec R hv k t b e h
+  have s := weekend_timex_fixed R hv k t b e h
   exact ⟨s.1, s.2.1, s.2.2.1, s.2.2.2.1, s.2.2.2.2.1, s.2.2.2.2.2.1⟩
-
-/- Full statement (FAILS, see `weekend_timex_fails_at_year_boundary`): the TIMEX is `YYYY-Www-WE` with the ISO year
-and ISO week of the Saturday. The code writes the *reference's calendar year*. -/
-
-/-- Holds when the reference's calendar year is the ISO year of the weekend's Saturday. -/
-theorem weekend_timex_partial (R : DateTime) (hv : R.date.valid = true) (k : Int) (t : Str) (b e : DateTime)
-    (h : weekendPeriod R k = some (t, b, e)) (g : (isoCalendar b.date).1 = R.date.y) :
-    t = pad 4 (isoCalendar b.date).1 ++ [45, 87] ++ pad 2 (isoCalendar b.date).2.1 ++ [45, 87, 69] := by
-  have s := weekendPeriod_spec R hv k t b e h
-  rw [g]; exact s.2.2.2.2.2.2
-
-/-- Negative witnesses: "next weekend" asked on 2020-12-31 → `2020-W01-WE` for 2021-01-09 (ISO 2021-W01);
-"this weekend" asked on 2021-01-03 → `2021-W53-WE` for 2021-01-02 (ISO 2020-W53). -/
-theorem weekend_timex_fails_at_year_boundary :
-    weekendPeriod ⟨⟨2020, 12, 31⟩, 0⟩ 1 = some (ofString "2020-W01-WE", ⟨⟨2021, 1, 9⟩, 0⟩, ⟨⟨2021, 1, 11⟩, 0⟩) ∧
-    isoCalendar ⟨2021, 1, 9⟩ = (2021, 1, 6) ∧
-    weekendPeriod ⟨⟨2021, 1, 3⟩, 0⟩ 0 = some (ofString "2021-W53-WE", ⟨⟨2021, 1, 2⟩, 0⟩, ⟨⟨2021, 1, 4⟩, 0⟩) ∧
-    isoCalendar ⟨2021, 1, 2⟩ = (2020, 53, 6) := by decide
-
-/-- The repaired variant (ISO year of the Saturday) satisfies the full statement. -/
-theorem weekend_timex_fixed (R : DateTime) (k : Int) (t : Str) (b e : DateTime)
-    (h : weekendPeriodFixed R k = some (t, b, e)) :
-    t = pad 4 (isoCalendar b.date).1 ++ [45, 87] ++ pad 2 (isoCalendar b.date).2.1 ++ [45, 87, 69] := by
-  unfold weekendPeriodFixed at h
-  cases hw : weekendPeriod R k with
-  | none => simp [hw] at h
-  | some r =>
-    simp only [hw, Option.map_some, Option.some.injEq, Prod.mk.injEq] at h
-    rw [← h.1, ← h.2.1]
 
 example : weekendPeriod ⟨⟨2020, 1, 29⟩, 52200⟩ 0 =
     some (ofString "2020-W05-WE", ⟨⟨2020, 2, 1⟩, 52200⟩, ⟨⟨2020, 2, 3⟩, 52200⟩) := by decide
+example : weekendPeriod ⟨⟨2020, 12, 31⟩, 0⟩ 1 = some (ofString "2021-W01-WE", ⟨⟨2021, 1, 9⟩, 0⟩, ⟨⟨2021, 1, 11⟩, 0⟩) := by
+  decide
+example : weekendPeriod ⟨⟨2021, 1, 3⟩, 0⟩ 0 = some (ofString "2020-W53-WE", ⟨⟨2021, 1, 2⟩, 0⟩, ⟨⟨2021, 1, 4⟩, 0⟩) := by
+  decide
+
+/-! ### REGRESSION (pre-fix code, before 10db50e3c): the TIMEX year was the reference's calendar year -/
+
+/-- The pre-fix TIMEX was right only when the reference's calendar year is the ISO year of the Saturday. -/
+theorem weekend_timex_prefix_partial (R : DateTime) (hv : R.date.valid = true) (k : Int) (t : Str) (b e : DateTime)
+    (h : weekendPeriodPreFix R k = some (t, b, e)) (g : (isoCalendar b.date).1 = R.date.y) :
+    t = pad 4 (isoCalendar b.date).1 ++ [45, 87] ++ pad 2 (isoCalendar b.date).2.1 ++ [45, 87, 69] := by
+  have s := weekendPeriodPreFix_spec R hv k t b e h
+  rw [g]; exact s.2.2.2.2.2.2
+
+/-- Regression witnesses: the pre-fix code answered `2020-W01-WE` for "next weekend" asked on 2020-12-31 (Saturday
+2021-01-09, ISO 2021-W01) and `2021-W53-WE` for "this weekend" asked on 2021-01-03 (Saturday 2021-01-02, ISO 2020-W53). -/
+theorem weekend_timex_prefix_regression :
+    weekendPeriodPreFix ⟨⟨2020, 12, 31⟩, 0⟩ 1 = some (ofString "2020-W01-WE", ⟨⟨2021, 1, 9⟩, 0⟩, ⟨⟨2021, 1, 11⟩, 0⟩) ∧
+    isoCalendar ⟨2021, 1, 9⟩ = (2021, 1, 6) ∧
+    weekendPeriodPreFix ⟨⟨2021, 1, 3⟩, 0⟩ 0 = some (ofString "2021-W53-WE", ⟨⟨2021, 1, 2⟩, 0⟩, ⟨⟨2021, 1, 4⟩, 0⟩) ∧
+    isoCalendar ⟨2021, 1, 2⟩ = (2020, 53, 6) := by decide
 
 /-! ## early / mid / late month and year -/
 
@@ -393,19 +406,26 @@ example : yearPeriodP ⟨⟨2020, 2, 29⟩, 5⟩ 1 true false = some (ofString "
 theorem year_to_date (R : DateTime) (hv : R.date.valid = true) :
     yearToDate R = (pad 4 R.date.y, ⟨⟨R.date.y, 1, 1⟩, 0⟩, R) := yearToDate_spec R hv
 
-/- Full statement for "month to date" (FAILS for the past value): both the future and the past value are
-`[1st of R's month, R]`. -/
-
-/-- What the code computes: TIMEX `YYYY-MM`; the *future* value starts on the 1st of the month; the *past* value
-starts on day number = month number at 01:00:00 (arguments `(year, month, month, 1)`), which is the 1st only in
-January. -/
+/-- "month to date" = `[1st of R's month (midnight), R]` for the future **and** the past value, TIMEX `YYYY-MM` — the
+code after `fix: 'month to date' starts on the first of the month in its past value too` (f19a69b3f). -/
 theorem month_to_date (R : DateTime) (hv : R.date.valid = true) :
     monthToDate R = (pad 4 R.date.y ++ [45] ++ pad 2 R.date.m, ⟨⟨R.date.y, R.date.m, 1⟩, 0⟩,
-      ⟨⟨R.date.y, R.date.m, R.date.m⟩, 3600⟩, R) := monthToDate_spec R hv
+      ⟨⟨R.date.y, R.date.m, 1⟩, 0⟩, R) := monthToDate_spec R hv
 
-/-- Negative witness: "month to date" at 2020-05-20: the past value starts on 2020-05-05 01:00:00. -/
-theorem month_to_date_past_start_fails :
-    monthToDate ⟨⟨2020, 5, 20⟩, 52200⟩ =
+example : monthToDate ⟨⟨2020, 5, 20⟩, 52200⟩ =
+    (ofString "2020-05", ⟨⟨2020, 5, 1⟩, 0⟩, ⟨⟨2020, 5, 1⟩, 0⟩, ⟨⟨2020, 5, 20⟩, 52200⟩) := by decide
+
+/-! ### REGRESSION (pre-fix code, before f19a69b3f): the past value started on day number = month number at 01:00 -/
+
+/-- What the pre-fix code computed: the *past* value started on day = month number at 01:00:00 (arguments
+`(year, month, month, 1)`), the 1st only in January. -/
+theorem month_to_date_prefix (R : DateTime) (hv : R.date.valid = true) :
+    monthToDatePreFix R = (pad 4 R.date.y ++ [45] ++ pad 2 R.date.m, ⟨⟨R.date.y, R.date.m, 1⟩, 0⟩,
+      ⟨⟨R.date.y, R.date.m, R.date.m⟩, 3600⟩, R) := monthToDatePreFix_spec R hv
+
+/-- Regression witness: "month to date" at 2020-05-20: the pre-fix past value started on 2020-05-05 01:00:00. -/
+theorem month_to_date_prefix_regression :
+    monthToDatePreFix ⟨⟨2020, 5, 20⟩, 52200⟩ =
       (ofString "2020-05", ⟨⟨2020, 5, 1⟩, 0⟩, ⟨⟨2020, 5, 5⟩, 3600⟩, ⟨⟨2020, 5, 20⟩, 52200⟩) := by decide
 
 /-! ## rest of the week | month | year
